@@ -23,6 +23,7 @@ import (
 //	R-Cxx-G3  a value known to be nil is not dereferenced
 //	R-Cxx-G4  the value result of a call is not used where the call's error is known non-nil
 //	R-Cxx-G5  a response literal says Success:true only where no error is known
+//	R-Cxx-G6  two same-typed arguments are not handed over crosswise to the parameters that bear their names
 //
 // They catch the local slips that keep every architectural rule intact: an inverted error test, a
 // dropped or misplaced unlock, a flipped nil guard, a failure acknowledged as success.
@@ -248,6 +249,20 @@ func runGeneric(r *Report, prop string) {
 						}
 					}
 				}
+				// G5: a response literal marked Success:true returned together with a non-nil error
+				if ret, ok := in.(*ssa.Return); ok && len(ret.Results) >= 2 && RetErrKind(ret) == "nonnil" {
+					for i := 0; i < len(ret.Results)-1; i++ {
+						if al, isA := stripValue(RetVal(ret, i)).(*ssa.Alloc); isA {
+							for _, fs := range fieldStores(al) {
+								if fs.field == "Success" {
+									if v, isC := ConstBool(fs.val); isC && v {
+										r.Fail(g(5), fs.pos, "a response marked Success:true is returned together with a non-nil error", fn, "success-with-error")
+									}
+								}
+							}
+						}
+					}
+				}
 				// G5: a literal with Success:true built where an error is known non-nil
 				if len(nonNilErrs) > 0 {
 					if st, ok := in.(*ssa.Store); ok {
@@ -260,6 +275,44 @@ func runGeneric(r *Report, prop string) {
 				}
 			}
 		}
+		// ---- G6 arguments handed over in the wrong order -------------------------------------
+		// two parameters of one type whose names the arguments carry crosswise (nodeID given for connID
+		// and connID for nodeID): names are compared on the last identifier of the argument's origin
+		Instrs(f, func(in ssa.Instruction) {
+			ci, ok := in.(ssa.CallInstruction)
+			if !ok {
+				return
+			}
+			sig := ci.Common().Signature()
+			args := ci.Common().Args
+			off := 0
+			if !ci.Common().IsInvoke() && sig.Recv() != nil {
+				off = 1
+			}
+			n := sig.Params().Len()
+			if sig.Variadic() {
+				n--
+			}
+			for i := 0; i < n; i++ {
+				for j := i + 1; j < n; j++ {
+					pi, pj := sig.Params().At(i), sig.Params().At(j)
+					if pi.Name() == "" || pj.Name() == "" || !types.Identical(pi.Type(), pj.Type()) || i+off >= len(args) || j+off >= len(args) {
+						continue
+					}
+					ai, aj := argName(args[i+off]), argName(args[j+off])
+					if ai == "" || aj == "" {
+						continue
+					}
+					ni, nj := normName(pi.Name()), normName(pj.Name())
+					if ni == nj {
+						continue
+					}
+					if normName(ai) == nj && normName(aj) == ni {
+						r.Fail(g(6), in.Pos(), fmt.Sprintf("arguments of %s are crossed: %q is passed for parameter %s and %q for parameter %s", CalleeOf(ci).Name, ai, pi.Name(), aj, pj.Name()), fn, "swapped-arguments:"+CalleeOf(ci).Name)
+					}
+				}
+			}
+		})
 		// ---- G4 result used where the call's error is known non-nil ---------------------
 		Instrs(f, func(in ssa.Instruction) {
 			c, ok := in.(*ssa.Call)
@@ -370,4 +423,34 @@ func directBranchReturn(ret *ssa.Return, x ssa.Value) bool {
 	c, _ := normCond(iff.Cond, true)
 	v, _, ok := NilTest(c)
 	return ok && stripValue(v) == stripValue(x)
+}
+
+// argName: the identifier an argument is read from: a parameter, a struct field, or the result of a
+// getter (GetX -> X); "" when the argument has no name of its own.
+func argName(v ssa.Value) string {
+	v = stripValue(v)
+	switch x := v.(type) {
+	case *ssa.Parameter:
+		return x.Name()
+	case *ssa.UnOp:
+		if x.Op == token.MUL {
+			if fa, ok := x.X.(*ssa.FieldAddr); ok {
+				return fieldName(fa.X.Type(), fa.Field)
+			}
+		}
+	case *ssa.Field:
+		return fieldName(x.X.Type(), x.Field)
+	case *ssa.Call:
+		n := CalleeOf(x).Name
+		if strings.HasPrefix(n, "Get") && len(n) > 3 {
+			return n[3:]
+		}
+	}
+	return ""
+}
+
+func normName(s string) string {
+	s = strings.ToLower(s)
+	s = strings.ReplaceAll(s, "_", "")
+	return s
 }
